@@ -296,6 +296,21 @@ def catalogue(rng, inp):
         ("PD.ase.abs", lambda: D.PD(o1c, 1.2e9, 1.0, 300, 50, "ase-only", 0.0), True),
         ("DAC.bw.abs", lambda: D.DAC(b, 0.0, 1.0, "nrz", BW=1.4e9), True),
     ]
+    # arrays already in the dtype a block converts to (a conversion that becomes a no-op must still not alias or mutate its argument)
+    slots_bool = slots[: len(slots) // 4 * 4].astype(bool)
+    slots_bool[:4] = [True, False, True, False]                     # a symbol with two ON slots and, further on, symbols with none
+    cat += [
+        ("HDD.bool", lambda: P.HDD(slots_bool, 4), False),
+        ("PPM_ENCODER.bool", lambda: P.PPM_ENCODER(ppm_bits.astype(bool), 4), True),
+        ("PPM_DECODER.bool", lambda: P.PPM_DECODER(code.data.astype(bool), M), True),
+        ("DAC.bool", lambda: D.DAC(b.astype(bool), 0.0, 1.0, "nrz"), True),
+        ("SDD.arr", lambda: P.SDD(wave_n.signal + wave_n.noise, M), True),
+        ("GET_EYE.arr", lambda: D.GET_EYE(v.copy() if False else v, sps_resamp=32), False),
+        ("ppm.DSP.arr", lambda: P.DSP(wave.signal, M, "soft"), True),
+        ("BS.u8", lambda: T.binary_sequence(slots), True),
+        ("ES.c128", lambda: T.electrical_signal(inp["f1"], inp["nz1"]), True),
+        ("OS.c128", lambda: T.optical_signal(inp["f2"], inp["nz2"]), True),
+    ]
     # second argument sets for the main blocks: a block that remembers anything from an earlier call shows up as order dependence
     cat += [
         ("DAC.rz.v2", lambda: D.DAC(b[::-1].copy(), 0.3, 0.7, "rz"), True),
@@ -322,7 +337,7 @@ def catalogue(rng, inp):
         rx = np.concatenate([np.zeros(5), np.kron(np.tile(b, 3), np.ones(sps))]) + 0.05 * np.sin(np.arange(5 + 3 * n))
         cat.append(("lab.SYNC", lambda: L.SYNC(ES(rx), bs), True))
         cat.append(("lab.SYNC.arr", lambda: L.SYNC(rx, b, sps), True))
-    return cat, dict(ev=ev, o1=o1, o2=o2, o1c=o1c, bs=bs, code=code, wave=wave, wave_n=wave_n, eyeobj=eyeobj, **inp)
+    return cat, dict(ev=ev, o1=o1, o2=o2, o1c=o1c, bs=bs, code=code, wave=wave, wave_n=wave_n, eyeobj=eyeobj, slots_bool=slots_bool, slots=slots, ppm_bits=ppm_bits, **inp)
 
 
 def shared_arrays(shared):
